@@ -1,4 +1,4 @@
-import MesaModel.Proofs.LayersTyped
+import MesaModel.Proofs.LayersBulk
 import MesaModel.Gen.NumpyTables
 /-!
 # C11 — property layers and cell attributes are one value; selection is exact
@@ -20,9 +20,19 @@ theorem C11_reach_iff_history (s : State) :
 
 /-! ## two views, one value -/
 
-/-- After every history: the attribute `name` of every cell of the grid and the entry of the layer
-    attached under `name` are the same value — whatever single-cell writes, bulk operations
-    (including re-pointing `modify_cells`), additions and removals of layers came before. -/
+/-- The code keeps the layers of a cell space in two registries written by separate statements of
+    `add_property_layer` / `remove_property_layer`: the grid's dict `_mesa_property_layers` (what `grid.<name>`,
+    `set_property`, `select_cells` use) and the `PropertyDescriptor`s on the grid's cell class (what a cell attribute
+    uses; each holds the layer object it was made for).  After every history they are the same map: no name has a
+    descriptor without a dict entry or the other way round, and the descriptor holds the very layer the dict names. -/
+theorem C11_descriptors_are_the_layer_dict {s : State} (h : Reach s) (hi : s.impl = .new) (n : String) :
+    s.descr.lookup n = s.named? n ∧ s.cellLayer? n = s.named? n :=
+  ⟨h.wf.descr_eq hi n, cellLayer?_eq h.wf n⟩
+
+/-- After every history: the attribute `name` of every cell of the grid (read through the descriptor on the cell
+    class) and the entry of the layer attached under `name` (the grid's dict) are the same value — whatever
+    single-cell writes, bulk operations (including re-pointing `modify_cells`), additions and removals of layers came
+    before.  (Not a fact about arbitrary states: see the example next to `demo` below.) -/
 theorem C11_two_views_one_value {s : State} (h : Reach s) {n : String} {l : Nat}
     (hn : s.named? n = some l) {c : Coord} (hc : inBounds s.dims c = true) :
     cellGet s n c = layerGet s l c ∧ layerGet s l c = .val (s.value l c) := by
@@ -31,6 +41,65 @@ theorem C11_two_views_one_value {s : State} (h : Reach s) {n : String} {l : Nat}
   have h2 : layerGet s l c = .val (s.value l c) :=
     layerGet_eq_value (hw.att_lt n l hn) (by rw [hw.att_dims n l hn]; exact hc)
   exact ⟨h1.trans h2.symm, h2⟩
+
+/-- The scope of every "no entry of any other layer" below: in every history of the op language no two layer objects
+    share an array, every layer's array is allocated, and a legacy layer never owns the grid's `_empty_mask`.  This is an
+    invariant of the *op language*, not of Python: on the legacy implementation `layer.data` is a plain attribute and
+    `l2.data = l1.data` would make two layers alias — that rebinding is not an op (design.d/C11.md, known weaknesses);
+    on the new implementation `layer.data = arr` is `set_cells(arr)`, a copy (`Op.setFrom`). -/
+theorem C11_layers_never_share_an_array {s : State} (h : Reach s) :
+    (∀ l1 l2, l1 < s.nLayers → l2 < s.nLayers → (s.layers l1).data = (s.layers l2).data → l1 = l2) ∧
+    (∀ l, l < s.nLayers → (s.layers l).data < s.next) ∧
+    (s.impl ≠ .new → ∀ l, l < s.nLayers → (s.layers l).data ≠ 0) :=
+  ⟨h.wf.data_inj, h.wf.data_lt, h.wf.legacy_data⟩
+
+/-- The frame of a single-cell write in its alias-aware form, for *every* state — also one reached through `rebind`, in which
+    layers may share an array —: the write through layer `l` sets the entry at `c` of every layer that shares `l`'s array
+    (all of them read `v` there) and changes nothing of a layer whose array is another, nor any other entry. -/
+theorem C11_write_frame_by_array {s s' : State} {l : Nat} {c : Coord} {v : Int}
+    (hset : layerSet s l c v = (s', .ok)) (l' : Nat) (c' : Coord) :
+    s'.value l' c' = if (s.layers l').data = (s.layers l).data ∧ c' = c then v else s.value l' c' := by
+  obtain ⟨_, _, rfl⟩ := layerSet_ok hset
+  unfold State.value
+  show upd s.heap (s.layers l).data ((s.heap (s.layers l).data).set c v) (s.layers l').data c' = _
+  by_cases hd : (s.layers l').data = (s.layers l).data
+  · rw [hd, upd_same]
+    by_cases hc : c' = c <;> simp [Arr.set, hc]
+  · rw [upd_other _ _ _ _ hd]
+    simp [hd]
+
+/-- Legacy `l2.data = <a reference to l1's array>` (`rebind`, a transition outside the op language): from then on the two
+    layer objects are one value — equal everywhere at once, and a write through `l1` is read through `l2` (hence through
+    the cell view `grid.properties[name]` of whatever name `l2` is attached under) — until one of them is re-pointed. -/
+theorem C11_rebound_layers_are_one_value {s s1 : State} {l1 l2 h : Nat} {d : List Nat}
+    (hh : s.handles.lookup h = some ((s.layers l1).data, d)) (hne : l1 ≠ l2) (hr : rebind s l2 h = (s1, .ok)) :
+    (s1.layers l2).data = (s1.layers l1).data ∧ (∀ c, s1.value l2 c = s1.value l1 c) ∧
+    ∀ c v s2, layerSet s1 l1 c v = (s2, .ok) → s2.value l2 c = v ∧ ∀ c', s2.value l2 c' = s2.value l1 c' := by
+  have hs1 : s1.layers = upd s.layers l2 { s.layers l2 with data := (s.layers l1).data } ∧ s1.heap = s.heap := by
+    unfold rebind at hr
+    split at hr
+    · simp at hr
+    · split at hr
+      · simp at hr
+      · next L hL =>
+        obtain ⟨_, rfl⟩ := layer?_some hL
+        rw [hh] at hr
+        simp only at hr
+        split at hr
+        · simp at hr
+        · split at hr
+          · simp at hr
+          · simp only [Prod.mk.injEq, and_true] at hr
+            subst hr
+            exact ⟨rfl, rfl⟩
+  obtain ⟨hl, hheap⟩ := hs1
+  have hd : (s1.layers l2).data = (s1.layers l1).data := by
+    rw [hl]; simp [upd, hne]
+  refine ⟨hd, fun c => by simp [State.value, hd], fun c v s2 hset => ?_⟩
+  have hf := C11_write_frame_by_array hset
+  refine ⟨by rw [hf l2 c]; simp [hd], fun c' => ?_⟩
+  rw [hf l2 c', hf l1 c']
+  simp [hd, State.value]
 
 /-- A write through the cell attribute is read back through the layer (and through the cell), and it
     changes no other entry of this layer and no entry of any other layer. -/
@@ -41,7 +110,7 @@ theorem C11_cell_write_read_through_layer {s s' : State} (h : Reach s) {n : Stri
   have hw := h.wf
   have hl := hw.att_lt n l hn
   obtain ⟨hc, hs'⟩ := cellSet_ok_attached hw hn hset
-  have hw' : WF s' := hw.of_sameShape (by rw [hs']; exact ⟨rfl, rfl, rfl, rfl, rfl, rfl, rfl, rfl, rfl⟩)
+  have hw' : WF s' := hw.of_sameShape (by rw [hs']; exact ⟨rfl, rfl, rfl, rfl, rfl, rfl, rfl, rfl, rfl, rfl⟩)
   have e1 : s'.nLayers = s.nLayers := by rw [hs']
   have e2 : s'.layers = s.layers := by rw [hs']
   have e3 : s'.named? n = some l := by rw [hs']; exact hn
@@ -72,7 +141,7 @@ theorem C11_layer_write_read_through_cell {s s' : State} (h : Reach s) {l : Nat}
     ∀ l' c', l' < s.nLayers → (l' ≠ l ∨ c' ≠ c) → s'.value l' c' = s.value l' c' := by
   have hw := h.wf
   obtain ⟨hl, hc, hs'⟩ := layerSet_ok hset
-  have hw' : WF s' := hw.of_sameShape (by rw [hs']; exact ⟨rfl, rfl, rfl, rfl, rfl, rfl, rfl, rfl, rfl⟩)
+  have hw' : WF s' := hw.of_sameShape (by rw [hs']; exact ⟨rfl, rfl, rfl, rfl, rfl, rfl, rfl, rfl, rfl, rfl⟩)
   have e1 : s'.nLayers = s.nLayers := by rw [hs']
   have e2 : s'.layers = s.layers := by rw [hs']
   have e3 : ∀ n, s'.named? n = s.named? n := by intro n; rw [hs']; rfl
@@ -95,6 +164,37 @@ theorem C11_layer_write_read_through_cell {s s' : State} (h : Reach s) {l : Nat}
       · exact absurd rfl hne
       · simp [Arr.set, hne, State.value]
     · rfl
+
+/-- When a single-cell write is accepted (the write theorems above start from an accepted write): through the layer iff
+    the layer exists and the index is inside its shape, through the cell attribute of an attached name iff the cell
+    exists, through a reference iff it is held and the index is inside the array's shape — `IndexError` otherwise,
+    whatever the value (numpy casts any value of the op language into any of the three dtypes). -/
+theorem C11_single_cell_write_accepted_iff {s : State} (h : Reach s) :
+    (∀ l c v, (layerSet s l c v).2 = .ok ↔ l < s.nLayers ∧ inBounds (s.layers l).dims c = true) ∧
+    (∀ n l c v, s.named? n = some l → ((cellSet s n c v).2 = .ok ↔ inBounds s.dims c = true)) ∧
+    (∀ hd c v, (hset s hd c v).2 = .ok ↔ ∃ a d, s.handles.lookup hd = some (a, d) ∧ inBounds d c = true) := by
+  have hw := h.wf
+  refine ⟨fun l c v => ?_, fun n l c v hn => ?_, fun hd c v => ?_⟩
+  · unfold layerSet State.layer?
+    by_cases hl : l < s.nLayers <;> by_cases hc : inBounds (s.layers l).dims c = true <;> simp [hl, hc]
+  · have hdims := hw.att_dims n l hn
+    unfold cellSet
+    split
+    · next hi =>
+      have hfree := hw.att_free hi n l hn
+      by_cases hc : inBounds s.dims c = true <;> simp [hc, hfree]
+    · rw [hn]
+      simp only [hdims]
+      by_cases hc : inBounds s.dims c = true <;> simp [hc]
+  · unfold hset
+    cases hx : s.handles.lookup hd with
+    | none => simp
+    | some p =>
+      obtain ⟨a, d⟩ := p
+      by_cases hc : inBounds d c = true
+      · simp only [hc]
+        exact ⟨fun _ => ⟨a, d, rfl, hc⟩, fun _ => by simp⟩
+      · simp [hc]
 
 /-- A layer's values change only by an op that writes to *that* layer (`Op.mayWrite`: through the layer,
     through the cell attribute of a name attached to it, through a reference aliasing its current array,
@@ -139,67 +239,74 @@ theorem C11_read_after_write_persists {s s1 : State} (h : Reach s) {n : String} 
 
 /-! ## bulk operations are point-wise, also right after a re-pointing `modify_cells` -/
 
-/-- `set_cells(v, cond)` on an existing layer always succeeds; afterwards every entry of that layer is
-    `v` where the old entry satisfied the condition and the old entry elsewhere; every other layer is
-    untouched; the cell attributes show exactly these values. -/
+/-- `set_cells(v, cond)` on an existing layer succeeds unless it has a condition and the layer has no entries (a
+    free-standing layer with a zero dimension: `np.vectorize` refuses, `ValueError`, nothing changes); when it
+    succeeds every entry of that layer is `v` where the old entry satisfied the condition and the old entry
+    elsewhere; every other layer is untouched; the cell attributes show exactly these values. -/
 theorem C11_set_cells_pointwise {s s' : State} (h : Reach s) {l : Nat} (hl : l < s.nLayers) {v : Int}
-    {cond : Option (Int → Bool)} {o : Out} (hset : setCells s l v cond = (s', o)) :
-    o = .ok ∧
-    (∀ l' c, l' < s.nLayers → s'.value l' c =
-      if l' = l then (if condHolds cond (s.value l c) then v else s.value l c) else s.value l' c) ∧
-    (∀ n c, s.named? n = some l → inBounds s.dims c = true →
-      cellGet s' n c = .val (if condHolds cond (s.value l c) then v else s.value l c)) := by
-  have hw := h.wf
-  obtain ⟨ho, hs'⟩ := setCells_ok hl hset
-  have hw' : WF s' := hw.of_sameShape (by rw [hs']; exact ⟨rfl, rfl, rfl, rfl, rfl, rfl, rfl, rfl, rfl⟩)
-  have e3 : ∀ n, s'.named? n = s.named? n := by intro n; rw [hs']; rfl
-  have e4 : s'.dims = s.dims := by rw [hs']
-  have hv : ∀ l' c, l' < s.nLayers → s'.value l' c =
-      if l' = l then (if condHolds cond (s.value l c) then v else s.value l c) else s.value l' c := by
-    intro l' c hl'; rw [hs']; exact value_upd hw hl hl' _ c
-  refine ⟨ho, hv, fun n c hn hc => ?_⟩
-  rw [cellGet_eq_value hw' (by rw [e3]; exact hn) (by rw [e4]; exact hc), hv l c hl]
-  simp
+    {cond : Option (Int → Bool)} {o : Out} (hset : step s (.setCells l (.raw v) cond) = (s', o)) :
+    (o = .ok ↔ ¬ (cond.isSome = true ∧ 0 ∈ (s.layers l).dims)) ∧
+    (o ≠ .ok → o = .err (.value .size0) ∧ s' = s) ∧
+    (o = .ok →
+      (∀ l' c, l' < s.nLayers → s'.value l' c =
+        if l' = l then (if condHolds cond (s.value l c) then v else s.value l c) else s.value l' c) ∧
+      (∀ n c, s.named? n = some l → inBounds s.dims c = true →
+        cellGet s' n c = .val (if condHolds cond (s.value l c) then v else s.value l c))) := by
+  simp only [step] at hset
+  rw [vecGuard_eq hl] at hset
+  split at hset
+  · next hg =>
+    simp only [Prod.mk.injEq] at hset
+    obtain ⟨rfl, rfl⟩ := hset
+    exact ⟨by simp [hg], fun _ => ⟨rfl, rfl⟩, fun e => by simp at e⟩
+  · next hg =>
+    obtain ⟨ho, hv, hc⟩ := setCells_pointwise h hl hset
+    exact ⟨by simp only [ho, true_iff]; exact hg, fun hne => absurd ho hne, fun _ => ⟨hv, hc⟩⟩
 
-/-- `modify_cells(f, cond)` (a Python function or a ufunc with its operand) on an existing layer
-    succeeds; the layer now points to a *new* array, and still: every entry is `f old` where the old
-    entry satisfied the condition and `old` elsewhere, other layers are untouched, and the cell
+/-- `modify_cells(f, cond)` (`vec`: a Python function, else a ufunc with its operand) on an existing layer succeeds
+    unless `np.vectorize` is needed — for a condition or a Python function — and the layer has no entries
+    (`ValueError`, nothing changes); when it succeeds the layer points to a *new* array, and still: every entry is
+    `f old` where the old entry satisfied the condition and `old` elsewhere, other layers are untouched, and the cell
     attributes — which go through the layer object — show exactly the new values. -/
-theorem C11_modify_cells_pointwise {s s' : State} (h : Reach s) {l : Nat} (hl : l < s.nLayers)
+theorem C11_modify_cells_pointwise {s s' : State} (h : Reach s) {l : Nat} (hl : l < s.nLayers) {vec : Bool}
     {f : Int → Int} {cond : Option (Int → Bool)} {o : Out}
-    (hmod : modifyCells s l (some f) cond = (s', o)) :
-    o = .ok ∧ (s'.layers l).data ≠ (s.layers l).data ∧
-    (∀ l' c, l' < s.nLayers → s'.value l' c =
-      if l' = l then (if condHolds cond (s.value l c) then f (s.value l c) else s.value l c)
-      else s.value l' c) ∧
-    (∀ n c, s.named? n = some l → inBounds s.dims c = true →
-      cellGet s' n c = .val (if condHolds cond (s.value l c) then f (s.value l c) else s.value l c)) := by
-  have hw := h.wf
-  have hw' : WF s' := by
-    have := WF_modifyCells hw l (some f) cond
-    rwa [hmod] at this
-  obtain ⟨ho, hs'⟩ := modifyCells_ok hl hmod
-  have hlt := hw.data_lt l hl
-  have e3 : ∀ n, s'.named? n = s.named? n := by intro n; rw [hs']; rfl
-  have e4 : s'.dims = s.dims := by rw [hs']
-  have hv : ∀ l' c, l' < s.nLayers → s'.value l' c =
-      if l' = l then (if condHolds cond (s.value l c) then f (s.value l c) else s.value l c)
-      else s.value l' c := by
-    intro l' c hl'
-    rw [hs']
-    unfold State.value
-    simp only [upd]
-    by_cases e : l' = l
-    · subst e; simp
-    · have := hw.data_lt l' hl'
-      simp only [e, if_false]
-      rw [if_neg (by omega)]
-  refine ⟨ho, ?_, hv, fun n c hn hc => ?_⟩
-  · rw [hs']; simp only [upd_same]; omega
-  · rw [cellGet_eq_value hw' (by rw [e3]; exact hn) (by rw [e4]; exact hc), hv l c hl]
-    simp
+    (hmod : step s (.modifyCells l vec (some f) cond) = (s', o)) :
+    (o = .ok ↔ ¬ ((cond.isSome || vec) = true ∧ 0 ∈ (s.layers l).dims)) ∧
+    (o ≠ .ok → o = .err (.value .size0) ∧ s' = s) ∧
+    (o = .ok →
+      (s'.layers l).data ≠ (s.layers l).data ∧
+      (∀ l' c, l' < s.nLayers → s'.value l' c =
+        if l' = l then (if condHolds cond (s.value l c) then f (s.value l c) else s.value l c)
+        else s.value l' c) ∧
+      (∀ n c, s.named? n = some l → inBounds s.dims c = true →
+        cellGet s' n c = .val (if condHolds cond (s.value l c) then f (s.value l c) else s.value l c))) := by
+  simp only [step] at hmod
+  rw [vecGuard_eq hl] at hmod
+  split at hmod
+  · next hg =>
+    simp only [Prod.mk.injEq] at hmod
+    obtain ⟨rfl, rfl⟩ := hmod
+    exact ⟨by simp only [reduceCtorEq, false_iff]; exact fun hx => hx hg, fun _ => ⟨rfl, rfl⟩, fun e => by simp at e⟩
+  · next hg =>
+    obtain ⟨ho, hne, hv, hc⟩ := modifyCells_pointwise h hl hmod
+    exact ⟨by simp only [ho, true_iff]; exact hg, fun hx => absurd ho hx, fun _ => ⟨hne, hv, hc⟩⟩
 
-/-- In place versus re-pointing: a reference to `layer.data` taken before `set_cells` sees the new
+/-- On a grid that has cells, every *attached* layer has entries (it has the grid's shape), so on the layers the
+    cell attributes speak about the `np.vectorize` guard never fires: `set_cells` / `modify_cells` are refused only
+    for their own reasons (a cast numpy refuses, a ufunc without operand). -/
+theorem C11_attached_layers_have_entries {s : State} (h : Reach s) (hd : 0 ∉ s.dims) {n : String} {l : Nat}
+    (hn : s.named? n = some l) :
+    s.noEntries l = false ∧ ∀ b k, vecGuard s l b k = k := by
+  have hw := h.wf
+  have hl := hw.att_lt n l hn
+  have h0 : 0 ∉ (s.layers l).dims := by rw [hw.att_dims n l hn]; exact hd
+  refine ⟨?_, fun b k => ?_⟩
+  · cases hx : s.noEntries l with
+    | false => rfl
+    | true => exact absurd ((noEntries_iff hl).mp hx) h0
+  · rw [vecGuard_eq hl, if_neg (fun hh => h0 hh.2)]
+
+/-- In place versus re-pointing (`setCells` / `modifyCells`: the calls past the `np.vectorize` guard): a reference to `layer.data` taken before `set_cells` sees the new
     values (it is the same array); taken before `modify_cells` it keeps the old values (the layer got a
     new array) — while layer and cell attributes agree on the new values in both cases (theorems above). -/
 theorem C11_set_in_place_modify_repoints {s s' : State} (h : Reach s) {l : Nat} (hl : l < s.nLayers)
@@ -252,7 +359,7 @@ theorem C11_write_through_live_reference {s s' : State} (h : Reach s) {l : Nat} 
   rw [hh] at hlk
   simp only [Option.some.injEq, Prod.mk.injEq] at hlk
   obtain ⟨rfl, rfl⟩ := hlk
-  have hw' : WF s' := hw.of_sameShape (by rw [hs']; exact ⟨rfl, rfl, rfl, rfl, rfl, rfl, rfl, rfl, rfl⟩)
+  have hw' : WF s' := hw.of_sameShape (by rw [hs']; exact ⟨rfl, rfl, rfl, rfl, rfl, rfl, rfl, rfl, rfl, rfl⟩)
   have e3 : ∀ n, s'.named? n = s.named? n := by intro n; rw [hs']; rfl
   have e4 : s'.dims = s.dims := by rw [hs']
   have hv : ∀ l' c', l' < s.nLayers → s'.value l' c' =
@@ -300,7 +407,7 @@ theorem C11_typed_cell_write_one_value {s s' : State} (h : Reach s) {n : String}
     layerGet s' l c = .val (castTo (s.dtypeOf l) x) ∧ cellGet s' n c = .val (castTo (s.dtypeOf l) x) ∧
     s'.dtypeOf l = s.dtypeOf l ∧
     ∀ l' c', l' < s.nLayers → (l' ≠ l ∨ c' ≠ c) → s'.value l' c' = s.value l' c' := by
-  simp only [step, State.cellWVal, hn] at hset
+  simp only [step, State.cellWVal, cellLayer?_eq h.wf, hn] at hset
   obtain ⟨h1, h2, h3⟩ := C11_cell_write_read_through_layer h hn hset
   refine ⟨h1, h2, ?_, h3⟩
   have := sameShape_cellSet s n c (castTo (s.dtypeOf l) x)
@@ -322,12 +429,15 @@ theorem C11_typed_layer_write_one_value {s s' : State} (h : Reach s) {l : Nat} {
   rw [hset] at this
   exact dtypeOf_sameShape this l
 
-/-- `set_cells(x, cond)` with a Python scalar: numpy (`np.copyto`, `same_kind`) refuses exactly the casts
+/-- `set_cells(x, cond)` with a Python scalar: a condition on a layer without entries is refused first (`np.vectorize`,
+    `ValueError`); otherwise numpy (`np.copyto`, `same_kind`) refuses exactly the casts
     that could lose something — a float into an int or bool layer, an int into a bool layer — and then
     nothing is written; every other value enters *exactly* (no truncation, unlike a single-cell write), at
     the cells whose old value satisfies the condition. -/
 theorem C11_set_cells_typed {s : State} (h : Reach s) {l : Nat} (hl : l < s.nLayers) (x : Val) (hx : x.ok)
     (cond : Option (Int → Bool)) :
+    (cond.isSome = true ∧ 0 ∈ (s.layers l).dims → step s (.setCells l (.py x) cond) = (s, .err (.value .size0))) ∧
+    (¬ (cond.isSome = true ∧ 0 ∈ (s.layers l).dims) →
     (sameKind x.ty (s.dtypeOf l) = false → step s (.setCells l (.py x) cond) = (s, .err .type)) ∧
     (sameKind x.ty (s.dtypeOf l) = true → ∃ s', step s (.setCells l (.py x) cond) = (s', .ok) ∧
       quarters (s.dtypeOf l) (castTo (s.dtypeOf l) x) = quarters x.ty x.raw ∧
@@ -335,36 +445,49 @@ theorem C11_set_cells_typed {s : State} (h : Reach s) {l : Nat} (hl : l < s.nLay
         if l' = l then (if condHolds cond (s.value l c) then castTo (s.dtypeOf l) x else s.value l c)
         else s.value l' c) ∧
       (∀ n c, s.named? n = some l → inBounds s.dims c = true →
-        cellGet s' n c = .val (if condHolds cond (s.value l c) then castTo (s.dtypeOf l) x else s.value l c))) := by
-  simp only [step, setCellsV_eq hl]
+        cellGet s' n c = .val (if condHolds cond (s.value l c) then castTo (s.dtypeOf l) x else s.value l c)))) := by
+  simp only [step, vecGuard_eq hl]
+  refine ⟨fun hg => by rw [if_pos hg], fun hg => ?_⟩
+  rw [if_neg hg]
+  simp only [setCellsV_eq hl]
   refine ⟨fun hk => by simp [hk], fun hk => ?_⟩
   simp only [hk, if_true]
-  obtain ⟨ho, hv, hcell⟩ := C11_set_cells_pointwise h hl (v := castTo (s.dtypeOf l) x) (cond := cond) rfl
+  obtain ⟨ho, hv, hcell⟩ := setCells_pointwise h hl (v := castTo (s.dtypeOf l) x) (cond := cond) rfl
   refine ⟨(setCells s l (castTo (s.dtypeOf l) x) cond).1, ?_, quarters_castTo_sameKind hx hk, hv, hcell⟩
   exact Prod.ext rfl ho
 
 /-- `set_cells(arr, cond)` with an *array* value of the layer's shape (`layer.data = arr`,
-    `grid.set_property(name, arr, cond)`): refused — nothing written — iff the array's dtype is not
+    `grid.set_property(name, arr, cond)`): a condition on a layer without entries is refused first (`np.vectorize`);
+    otherwise refused — nothing written — iff the array's dtype is not
     `same_kind`-castable; otherwise point-wise and positional: the entry at `c` becomes the number `arr[c]`
     (not the next unused entry of `arr`) where the *old* entry at `c` satisfied the condition and stays
     elsewhere; other layers untouched; the cell attributes show exactly these values. -/
 theorem C11_set_cells_array_pointwise {s : State} (h : Reach s) {l : Nat} (hl : l < s.nLayers) {hd a : Nat}
     {dims : List Nat} (hh : s.handles.lookup hd = some (a, dims)) (hdims : dims = (s.layers l).dims)
     (cond : Option (Int → Bool)) :
+    (cond.isSome = true ∧ 0 ∈ (s.layers l).dims → setFrom s l hd cond = (s, .err (.value .size0))) ∧
+    (¬ (cond.isSome = true ∧ 0 ∈ (s.layers l).dims) →
     (sameKind (s.adt a) (s.dtypeOf l) = false → setFrom s l hd cond = (s, .err .type)) ∧
     (sameKind (s.adt a) (s.dtypeOf l) = true → ∃ s', setFrom s l hd cond = (s', .ok) ∧
       (∀ l' c, l' < s.nLayers → s'.value l' c =
         if l' = l then (if condHolds cond (s.value l c) then recode (s.adt a) (s.dtypeOf l) (s.heap a c) else s.value l c)
         else s.value l' c) ∧
       (∀ c, quarters (s.dtypeOf l) (recode (s.adt a) (s.dtypeOf l) (s.heap a c)) = quarters (s.adt a) (s.heap a c)) ∧
-      (∀ n c, s.named? n = some l → inBounds s.dims c = true → cellGet s' n c = .val (s'.value l c))) := by
+      (∀ n c, s.named? n = some l → inBounds s.dims c = true → cellGet s' n c = .val (s'.value l c)))) := by
   have hw := h.wf
+  have hz : ((cells (s.layers l).dims).isEmpty = true) ↔ 0 ∈ (s.layers l).dims := by
+    rw [List.isEmpty_iff, cells_eq_nil_iff]
+  refine ⟨fun hg => ?_, fun hg => ?_⟩
+  · unfold setFrom State.layer?
+    simp only [hl, if_true, hh, hdims, ne_eq, not_true_eq_false, if_false]
+    rw [if_pos (by simp only [Bool.and_eq_true]; exact ⟨hg.1, hz.mpr hg.2⟩)]
   have hsf : setFrom s l hd cond = (if sameKind (s.adt a) (s.dtypeOf l) then
       ({ s with heap := upd s.heap (s.layers l).data (fun c =>
           if condHolds cond (s.heap (s.layers l).data c) then recode (s.adt a) (s.dtypeOf l) (s.heap a c)
           else s.heap (s.layers l).data c) }, .ok) else (s, .err .type)) := by
     unfold setFrom State.layer? State.dtypeOf
     simp only [hl, if_true, hh, hdims, ne_eq, not_true_eq_false, if_false]
+    rw [if_neg (by simp only [Bool.and_eq_true]; exact fun hx => hg ⟨hx.1, hz.mp hx.2⟩)]
     cases sameKind (s.adt a) (s.adt (s.layers l).data) <;> simp
   refine ⟨fun hk => by rw [hsf, hk]; rfl, fun hk => ?_⟩
   rw [hsf, hk]
@@ -375,10 +498,11 @@ theorem C11_set_cells_array_pointwise {s : State} (h : Reach s) {l : Nat} (hl : 
   · have hw' : WF ({ s with heap := upd s.heap (s.layers l).data (fun c =>
           if condHolds cond (s.heap (s.layers l).data c) then recode (s.adt a) (s.dtypeOf l) (s.heap a c)
           else s.heap (s.layers l).data c) } : State) :=
-      hw.of_sameShape ⟨rfl, rfl, rfl, rfl, rfl, rfl, rfl, rfl, rfl⟩
+      hw.of_sameShape ⟨rfl, rfl, rfl, rfl, rfl, rfl, rfl, rfl, rfl, rfl⟩
     exact cellGet_eq_value hw' hn hc
 
-/-- `modify_cells` whose operation yields entries of type `rd`: the layer is re-pointed to an array of the
+/-- `modify_cells` whose operation yields entries of type `rd` (`modifyCellsT`: the call past the `np.vectorize`
+    guard, see `C11_modify_ufunc_typed`): the layer is re-pointed to an array of the
     *promoted* dtype; every entry stands for `f old` where the old entry satisfied the condition and for the
     *same number as before* elsewhere (promotion loses nothing); other layers keep values and dtypes; the
     cell attributes read the new array. -/
@@ -424,24 +548,31 @@ theorem C11_ufunc_result_types (d t : DType) :
     (d.join t).rank = max d.rank t.rank := by
   cases d <;> cases t <;> decide
 
-/-- `modify_cells(ufunc, x, cond)` with a typed operand: refused (state unchanged) exactly when numpy has no
-    such operation; otherwise it is the promoting `modify_cells` with numpy's result type, and for
+/-- `modify_cells(ufunc, x, cond)` with a typed operand (`vec`: the same operator in a Python function): on a layer
+    without entries a condition or a Python function is refused first (`np.vectorize`); otherwise it is refused
+    (state unchanged) exactly when numpy has no such operation; otherwise it is the promoting `modify_cells` with numpy's result type, and for
     `+`, `-`, maximum, minimum into a non-bool result the new entry *is* the sum / difference / larger /
     smaller of the two numbers. -/
-theorem C11_modify_ufunc_typed {s : State} {l : Nat} (hl : l < s.nLayers) (op : UOp) (x : Val) (hx : x.ok)
+theorem C11_modify_ufunc_typed {s : State} {l : Nat} (hl : l < s.nLayers) (vec : Bool) (op : UOp) (x : Val) (hx : x.ok)
     (cond : Option (Int → Bool)) :
-    (op.result (s.dtypeOf l) x.ty = none → step s (.modifyU l op x cond) = (s, .err .type)) ∧
+    ((cond.isSome || vec) = true ∧ 0 ∈ (s.layers l).dims →
+      step s (.modifyU l vec op x cond) = (s, .err (.value .size0))) ∧
+    (¬ ((cond.isSome || vec) = true ∧ 0 ∈ (s.layers l).dims) →
+    (op.result (s.dtypeOf l) x.ty = none → step s (.modifyU l vec op x cond) = (s, .err .type)) ∧
     (∀ rd, op.result (s.dtypeOf l) x.ty = some rd →
-      step s (.modifyU l op x cond) = modifyCellsT s l (some (op.apply (s.dtypeOf l) x)) cond rd ∧
+      step s (.modifyU l vec op x cond) = modifyCellsT s l (some (op.apply (s.dtypeOf l) x)) cond rd ∧
       (rd ≠ .bool → ∀ v,
         (op = .add → quarters rd (op.apply (s.dtypeOf l) x v) = quarters (s.dtypeOf l) v + quarters x.ty x.raw) ∧
         (op = .sub → quarters rd (op.apply (s.dtypeOf l) x v) = quarters (s.dtypeOf l) v - quarters x.ty x.raw) ∧
         (op = .max → quarters rd (op.apply (s.dtypeOf l) x v) = max (quarters (s.dtypeOf l) v) (quarters x.ty x.raw)) ∧
-        (op = .min → quarters rd (op.apply (s.dtypeOf l) x v) = min (quarters (s.dtypeOf l) v) (quarters x.ty x.raw)))) := by
-  have hstep : step s (.modifyU l op x cond) = (match op.result (s.dtypeOf l) x.ty with
+        (op = .min → quarters rd (op.apply (s.dtypeOf l) x v) = min (quarters (s.dtypeOf l) v) (quarters x.ty x.raw))))) := by
+  refine ⟨fun hg => by simp only [step]; rw [vecGuard_eq hl, if_pos hg], fun hg => ?_⟩
+  have hstep : step s (.modifyU l vec op x cond) = (match op.result (s.dtypeOf l) x.ty with
       | none => (s, .err .type)
       | some rd => modifyCellsT s l (some (op.apply (s.dtypeOf l) x)) cond rd) := by
-    simp only [step, modifyU, State.layer?, hl, if_true, State.dtypeOf] <;> rfl
+    simp only [step]
+    rw [vecGuard_eq hl, if_neg hg]
+    simp only [modifyU, State.layer?, hl, if_true, State.dtypeOf] <;> rfl
   refine ⟨fun hn => by rw [hstep, hn], fun rd hr => ⟨by rw [hstep, hr], fun hnb v => ?_⟩⟩
   obtain ⟨ty, raw⟩ := x
   generalize s.dtypeOf l = d at hr ⊢
@@ -451,6 +582,28 @@ theorem C11_modify_ufunc_typed {s : State} {l : Nat} (hl : l < s.nLayers) (op : 
     simp [UOp.apply, UOp.result, DType.join, DType.rank, quarters, fromQuarters, ← Int.mul_add, ← Int.mul_sub, e4] at hnb ⊢
   all_goals (rcases Int.le_total (4 * v) (4 * raw) with h | h <;>
     simp only [Int.max_eq_right, Int.max_eq_left, Int.min_eq_left, Int.min_eq_right, h, e4])
+
+/-- … and for `×`: whenever the exact product of the two numbers is again a multiple of 1/4 (always for an integral
+    operand — what the harness uses — but not for 0.25 × 0.25) the new entry *is* the product.  Without that the model's
+    entry is the product cut to quarters, which is not numpy's value: such operands are outside the model. -/
+theorem C11_ufunc_mul_exact (d : DType) (x : Val) (v : Int) (rd : DType)
+    (hr : UOp.mul.result d x.ty = some rd) (hnb : rd ≠ .bool)
+    (hdiv : (4 : Int) ∣ quarters d v * quarters x.ty x.raw) :
+    4 * quarters rd (UOp.mul.apply d x v) = quarters d v * quarters x.ty x.raw := by
+  obtain ⟨ty, raw⟩ := x
+  have key : ∀ a : Int, (4 : Int) ∣ a → 4 * a.tdiv 4 = a := fun a h => Int.mul_tdiv_cancel' h
+  have e4 : ∀ a : Int, (4 * a).tdiv 4 = a := tdiv4_mul
+  have e16 : ∀ a b : Int, (4 * a * (4 * b)).tdiv 4 = 4 * (a * b) := by
+    intro a b
+    have : 4 * a * (4 * b) = 4 * (4 * (a * b)) := by grind
+    rw [this, e4]
+  cases d <;> cases ty <;> simp [UOp.result, DType.join, DType.rank] at hr <;> subst hr <;>
+    simp [UOp.apply, UOp.result, DType.join, DType.rank, quarters, fromQuarters, e4, e16] at hnb hdiv ⊢
+  all_goals first | exact key _ hdiv | grind
+
+/-- 1.5 × 2.0 = 3.0 is inside the hypothesis, 0.25 × 0.25 is not (and there the model's 0 is not numpy's 0.0625) -/
+example : (4 : Int) ∣ quarters .float 6 * quarters .float 8 ∧ UOp.mul.apply .float ⟨.float, 8⟩ 6 = 12 ∧
+    ¬ (4 : Int) ∣ quarters .float 1 * quarters .float 1 := by decide
 
 /-- Over any history the dtype of a layer changes only when a typed `modify_cells` re-points that very
     layer (`Op.mayRetype`) — single-cell writes of any type, `set_cells`, writes through references, adding and
@@ -716,13 +869,14 @@ theorem C11_cell_protocol_names_reserved :
 
 /-- The built-in layer is an ordinary one: a fresh grid *is* the layer-less grid after
     `create_property_layer("empty", True, bool)`, a call the clash rule lets through. -/
-theorem C11_builtin_empty_is_created_layer (dims : List Nat) (cap : Nat) :
-    create { init .new dims cap with next := 0, nLayers := 0, attached := [] } "empty" .bool 1
+theorem C11_builtin_empty_is_created_layer (dims : List Nat) (cap : Option Nat) :
+    create { init .new dims cap with next := 0, nLayers := 0, attached := [], descr := [] } "empty" .bool 1
       = (init .new dims cap, .id 0) := by
   have hfree : "empty" ∉ reservedNames := C11_cell_protocol_names_reserved.2
   unfold create attachCheck
   simp only [init, State.named?, List.lookup_nil, Option.isSome_none, ne_eq, not_true_eq_false,
-    if_false, Bool.false_eq_true, hfree, if_true, List.nil_append, Nat.zero_add, Prod.mk.injEq, and_true]
+    if_false, Bool.false_eq_true, hfree, if_true, List.nil_append, Nat.zero_add, setDescr, List.filter_nil,
+    Prod.mk.injEq, and_true]
   congr 1
   · funext j; simp [upd]
   · funext j; simp [upd]
@@ -758,17 +912,20 @@ theorem C11_layer_never_shadows_cell_attribute {s : State} (h : Reach s) (hi : s
 
 /-! ## the emptiness layer / mask is actual emptiness -/
 
-/-- After every history in which the user does not himself overwrite, re-point, alias or remove the
-    built-in `empty` layer (`Op.safe`; the legacy mask cannot be touched at all): the emptiness view
-    (`grid.empty.data` / `grid.empty_mask`, the array `only_empty` uses) is 1 exactly at the cells no
-    agent is in and 0 elsewhere — through any interleaving of placements, moves and removals with layer
-    operations, for SingleGrid, MultiGrid (several agents per cell) and cell spaces with capacities. -/
-theorem C11_empty_view_is_emptiness (impl : Impl) (dims : List Nat) (cap : Nat) (ops : List Op)
-    (hs : ∀ op ∈ ops, op.safe impl = true) :
+/-- After every history in which the user does not himself overwrite, re-point or remove the built-in `empty` layer /
+    the legacy mask (`safeHist`: every op is safe *in the state it is issued in* — taking a reference to
+    `grid.empty.data` / `grid.empty_mask` and reading through it is allowed, a write through a reference is unsafe
+    exactly when that reference aliases the emptiness array): the emptiness view (`grid.empty.data` /
+    `grid.empty_mask`, the array `only_empty` uses) is 1 exactly at the cells no agent is in and 0 elsewhere — through
+    any interleaving of placements, moves and removals with layer operations, for SingleGrid, MultiGrid (several
+    agents per cell) and cell spaces with capacities.  `C11_unsafe_write_is_the_only_way` below: the hypothesis cannot
+    be dropped, and what it excludes is exactly the user's own write. -/
+theorem C11_empty_view_is_emptiness (impl : Impl) (dims : List Nat) (cap : Option Nat) (ops : List Op)
+    (hs : safeHist (init impl dims cap) ops) :
     ∃ e, (run (init impl dims cap) ops).1.emptyArr? = some e ∧
       ∀ c, e c = boolInt ((run (init impl dims cap) ops).1.isEmptyCell c) := by
-  have hinv := Inv_run (WF_init impl dims cap) (EmpInv_init impl dims cap) ops hs
-  refine ⟨(run (init impl dims cap) ops).1.heap 0, ?_, hinv.view⟩
+  have hinv := Inv_run (W := fun _ => False) (WF_init impl dims cap) (EmpInv_init impl dims cap) ops hs
+  refine ⟨(run (init impl dims cap) ops).1.heap 0, ?_, fun c => hinv.view c (fun hf => hf)⟩
   unfold State.emptyArr?
   split
   · next hi =>
@@ -777,8 +934,8 @@ theorem C11_empty_view_is_emptiness (impl : Impl) (dims : List Nat) (cap : Nat) 
   · rfl
 
 /-- the two read-outs of the `empties` op (view and actual emptiness) coincide after such a history -/
-theorem C11_empties_readout_agrees (impl : Impl) (dims : List Nat) (cap : Nat) (ops : List Op)
-    (hs : ∀ op ∈ ops, op.safe impl = true) :
+theorem C11_empties_readout_agrees (impl : Impl) (dims : List Nat) (cap : Option Nat) (ops : List Op)
+    (hs : safeHist (init impl dims cap) ops) :
     empties (run (init impl dims cap) ops).1 =
       .emp (some (((cells (run (init impl dims cap) ops).1.dims).map
               (run (init impl dims cap) ops).1.isEmptyCell).map boolInt))
@@ -799,6 +956,47 @@ theorem C11_empties_readout_agrees (impl : Impl) (dims : List Nat) (cap : Nat) (
     simp only [Option.some.injEq] at this
     rw [this, hfun]
     simp [List.map_map, Function.comp_def]
+
+/-- The converse, for histories in which the user *does* write through a reference to the emptiness array
+    (`grid.empty.data[c] = v`, legacy `grid.empty_mask[c] = v`) — every op otherwise statically safe —: the view is
+    still there and is wrong *at most at the cells so written* (`aliasWrites`: judged at the time of each write; a
+    later move of an agent through such a cell may well repair it); everywhere else it is actual emptiness. -/
+theorem C11_empty_view_wrong_at_most_where_written (impl : Impl) (dims : List Nat) (cap : Option Nat) (ops : List Op)
+    (hs : ∀ op ∈ ops, op.safe impl = true) :
+    ∃ e, (run (init impl dims cap) ops).1.emptyArr? = some e ∧
+      ∀ c, ¬ aliasWrites (init impl dims cap) ops c → e c = boolInt ((run (init impl dims cap) ops).1.isEmptyCell c) := by
+  have hinv := Inv_run_alias (W := fun _ => False) (WF_init impl dims cap) (EmpInv_init impl dims cap) ops hs
+  refine ⟨(run (init impl dims cap) ops).1.heap 0, ?_, fun c hc => hinv.view c (fun hx => hx.elim (fun hf => hf) hc)⟩
+  unfold State.emptyArr?
+  split
+  · next hi =>
+    obtain ⟨h1, h2, _⟩ := hinv.named hi
+    simp [State.namedArr?, State.named?, h1, h2]
+  · rfl
+
+/-- What `safeHist` excludes is exactly the user's own overwrite: one op that is unsafe in a state where the view is right
+    can only be a write to / re-pointing / removal of the built-in layer through the layer (id 0), through the cell
+    attribute `empty`, or through a reference that aliases the emptiness array — and such a write does break the view
+    (`grid.empty_mask[0, 0] = False` on an empty SingleGrid makes `only_empty` miss the cell: the example below). -/
+theorem C11_unsafe_write_is_the_only_way {s : State} {op : Op} (h : op.safeAt s = false) :
+    (∃ h' c v a d, op = .hset h' c v ∧ s.handles.lookup h' = some (a, d) ∧ a = 0) ∨
+    (s.impl = .new ∧ ((∃ c v, op = .cellSet "empty" c v) ∨ op = .detach "empty" ∨
+      (∃ c v, op = .layerSet 0 c v) ∨ (∃ c v, op = .cellSet2 0 c v) ∨ (∃ v cond, op = .setCells 0 v cond) ∨
+      (∃ hd cond, op = .setFrom 0 hd cond) ∨ (∃ vec f cond, op = .modifyCells 0 vec f cond) ∨
+      (∃ f cond rd, op = .modifyT 0 f cond rd) ∨ (∃ vec o x cond, op = .modifyU 0 vec o x cond) ∨
+      (∃ c f, op = .modifyCell 0 c f) ∨ (∃ c o x, op = .modifyCellU 0 c o x))) := by
+  cases op
+  case hset hd c v =>
+    left
+    simp only [Op.safeAt] at h
+    split at h
+    · next a d hlk => exact ⟨hd, c, v, a, d, rfl, hlk, by simpa using h⟩
+    · simp at h
+  all_goals right
+  all_goals simp only [Op.safeAt, Op.safe, Bool.or_eq_false_iff, bne_eq_false_iff_eq, reduceCtorEq] at h
+  all_goals obtain ⟨hi, rfl⟩ := h
+  all_goals refine ⟨hi, ?_⟩
+  all_goals simp
 
 /-! ## `select_cells` is exact -/
 
@@ -884,8 +1082,8 @@ theorem C11_select_list_is_mask {s : State} {q : Query} {list : List Coord} {mas
 /-- `only_empty=True` selects only cells that are actually empty, and misses none: after a history
     that leaves the built-in layer alone, the `only_empty` filter of `select_cells` is *exactly* "no agent
     is in the cell" (this is what defect S16 — and S1 for MultiGrid — broke). -/
-theorem C11_only_empty_is_actual_emptiness (impl : Impl) (dims : List Nat) (cap : Nat) (ops : List Op)
-    (hs : ∀ op ∈ ops, op.safe impl = true) (q : Query) (hq : q.onlyEmpty = true) (c : Coord) :
+theorem C11_only_empty_is_actual_emptiness (impl : Impl) (dims : List Nat) (cap : Option Nat) (ops : List Op)
+    (hs : safeHist (init impl dims cap) ops) (q : Query) (hq : q.onlyEmpty = true) (c : Coord) :
     q.filters (run (init impl dims cap) ops).1 c ↔
       (∀ k ∈ q.masks, k c = true) ∧ (run (init impl dims cap) ops).1.isEmptyCell c = true ∧
       (∀ np ∈ q.conds, ∃ a, (run (init impl dims cap) ops).1.namedArr? np.1 = some a ∧ np.2 (a c) = true) := by
@@ -1094,9 +1292,11 @@ theorem C11_shared_layer_second_grid {s : State} (h : Reach s) {l : Nat} {c : Co
           · simp at hok
           · split at hok
             · simp at hok
-            · next hb =>
-              simp only [Except.ok.injEq] at hok
-              exact ⟨hlt, hok.symm, by simpa using hb⟩
+            · split at hok
+              · simp at hok
+              · next hb =>
+                simp only [Except.ok.injEq] at hok
+                exact ⟨hlt, hok.symm, by simpa using hb⟩
   obtain ⟨hl, rfl, hc⟩ := hchk
   have hget : cellGet2 s l c = layerGet s l c := by
     rw [layerGet_eq_value hl hc]
@@ -1150,10 +1350,12 @@ theorem C11_within_radius_symmetric (moore torus : Bool) (dims : List Nat) (c c'
   unfold withinRadius
   rw [hds dims c c']
 
-/-- `get_neighborhood_mask(c, include_center, radius)` kept as a mask: it is true exactly at the cells of
-    the grid within `radius` steps of `c` (king moves for Moore, rook steps for von Neumann; the shorter
-    way round on a torus), at `c` itself iff `include_center`; both output forms describe it; no layer
-    value changes. -/
+/-- `get_neighborhood_mask(c, include_center, radius)` kept as a mask: what the op leaves behind — the saved mask is
+    the predicate both output forms describe, no layer value and no shape changes — and the model's *definition* of
+    that predicate, spelled out: the cells of the grid within `radius` steps of `c` in the grid's metric (king moves for
+    Moore, rook steps for von Neumann; the shorter way round on a torus), `c` itself iff `include_center`.  That this
+    metric ball is what `get_neighborhood` enumerates is not said here: `C11_neighborhood_mask_is_hop_closure_partial`
+    (Props/C11Ball.lean, against C07's model, on a sample of grids) and the oracle (against the running code). -/
 theorem C11_neighborhood_mask_exact {s s' : State} {k : Nat} {moore torus : Bool} {c : Coord} {ic : Bool}
     {r : Nat} {list : List Coord} {mask : List Bool}
     (h : nbhdMask s k (some moore) torus c ic r = (s', .sel list mask)) :
@@ -1212,12 +1414,21 @@ theorem C11_select_within_saved_mask {s s' : State} {k : Nat} {m : Coord → Boo
 /-- a cell space with capacity 1: a layer written through the layer, re-pointed by a conditional
     `modify_cells`, an agent placed, a reference taken before a second re-pointing -/
 private def demo : State :=
-  (run (init .new [2, 3] 1)
+  (run (init .new [2, 3] (some 1))
     [.create "a" .int 0, .layerSet 1 [1, 2] 5, .layerSet 1 [0, 0] 5, .place 7 [0, 1],
-     .modifyCells 1 (some (· + 1)) (some (fun x => decide (x > 3))), .grab 0 1,
-     .modifyCells 1 (some (· * 2)) none]).1
+     .modifyCells 1 true (some (· + 1)) (some (fun x => decide (x > 3))), .grab 0 1,
+     .modifyCells 1 true (some (· * 2)) none]).1
 
 example : Reach demo := reach_run (Reach.init ..) _
+/-- `C11_two_views_one_value` needs reachability: in a state whose descriptor registry lost the entry the dict still has,
+    the cell attribute is gone while the layer is there — and after a history that adds, removes and re-adds layers
+    (one of them under the name of a removed one) the two registries do agree -/
+example : cellGet { init .new [1, 1] none with descr := [] } "empty" [0, 0] = .err .attr ∧
+    layerGet { init .new [1, 1] none with descr := [] } 0 [0, 0] = .val 1 := by decide
+example : (run (init .new [1, 2] none) [.create "a" .int 3, .newLayer "a" [1, 2] .int 5, .detach "a", .attach 2,
+    .detach "empty", .cellGet "a" [0, 1]]).2.getLast? = some (.val 5) ∧
+    (run (init .new [1, 2] none) [.create "a" .int 3, .newLayer "a" [1, 2] .int 5, .detach "a", .attach 2,
+    .detach "empty"]).1.descr = [("a", 2)] := by decide
 example : demo.named? "a" = some 1 ∧ inBounds demo.dims [1, 2] = true := by decide
 example : cellGet demo "a" [1, 2] = .val 12 ∧ layerGet demo 1 [1, 2] = .val 12 ∧ hget demo 0 [1, 2] = .val 6 := by decide
 example : empties demo = .emp (some [1, 0, 1, 1, 1, 1]) [true, false, true, true, true, true] := by decide
@@ -1228,24 +1439,59 @@ example : selectCells demo ⟨[], true, [], [("a", some false)]⟩
     = .sel [[0, 2], [1, 0], [1, 1]] [false, false, true, true, true, false] := by decide
 /-- a history that never writes layer 1 (`noWrite`) although it creates and re-points another layer,
     detaches and re-attaches layer 1 and moves an agent: the value written before it is still read -/
-example : noWrite 1 (run (init .new [2, 2] 0) [.create "a" .int 0, .cellSet "a" [0, 1] 7]).1
-    [.create "b" .int 1, .modifyCells 2 (some (· + 1)) none, .detach "a", .place 0 [0, 1], .attach 1] := by
+example : noWrite 1 (run (init .new [2, 2] none) [.create "a" .int 0, .cellSet "a" [0, 1] 7]).1
+    [.create "b" .int 1, .modifyCells 2 true (some (· + 1)) none, .detach "a", .place 0 [0, 1], .attach 1] := by
   refine ⟨?_, ?_, ?_, ?_, ?_, trivial⟩
   · simp [Op.mayWrite]
   · simp [Op.mayWrite]
   · simp [Op.mayWrite]
   · simp only [Op.mayWrite, not_and]; intro _; decide
   · simp [Op.mayWrite]
-example : cellGet (run (init .new [2, 2] 0) [.create "a" .int 0, .cellSet "a" [0, 1] 7,
-    .create "b" .int 1, .modifyCells 2 (some (· + 1)) none, .detach "a", .place 0 [0, 1], .attach 1]).1 "a" [0, 1]
+example : cellGet (run (init .new [2, 2] none) [.create "a" .int 0, .cellSet "a" [0, 1] 7,
+    .create "b" .int 1, .modifyCells 2 true (some (· + 1)) none, .detach "a", .place 0 [0, 1], .attach 1]).1 "a" [0, 1]
     = .val 7 := by decide
+/-- safe histories that hold a reference to the emptiness array: a cell space whose `grid.empty.data` is grabbed, read
+    after a placement (the reference is live: it shows the 0), next to a write through a reference to *another* layer;
+    a SingleGrid whose `empty_mask` is grabbed and read -/
+example : safeHist (init .new [2, 2] (some 1)) [.grab 5 0, .place 0 [0, 1], .hget 5 [0, 1], .create "a" .int 0, .grab 1 1,
+    .hset 1 [0, 0] 7, .move 0 [1, 1], .hdump 5, .empties] := by decide
+example : (run (init .new [2, 2] (some 1)) [.grab 5 0, .place 0 [0, 1], .hget 5 [0, 1], .create "a" .int 0, .grab 1 1,
+    .hset 1 [0, 0] 7, .move 0 [1, 1], .hdump 5]).2.getLast? = some (.arr [1, 1, 1, 0]) := by decide
+example : safeHist (init .single [2, 2] none) [.grabMask 0, .place 3 [1, 0], .hget 0 [1, 0], .remove 3, .hdump 0] := by decide
+/-- … and the one thing that is excluded: `grid.empty_mask[0, 0] = False` on an empty SingleGrid is unsafe in that state,
+    the view is then wrong at that cell and `only_empty` misses it -/
+example : Op.safeAt (run (init .single [2, 2] none) [.grabMask 0]).1 (.hset 0 [0, 0] 0) = false ∧
+    (run (init .single [2, 2] none) [.grabMask 0, .hset 0 [0, 0] 0, .empties, .select [] true [] [] none]).2 =
+    [.ok, .ok, .emp (some [0, 1, 1, 1]) [true, true, true, true],
+     .sel [[0, 1], [1, 0], [1, 1]] [false, true, true, true]] := by decide
+/-- a capacity of 0 is a capacity (repair SC3): nobody enters, every cell stays empty; no capacity: everybody does -/
+example : (run (init .new [1, 2] (some 0)) [.place 0 [0, 0], .empties]).2 =
+    [.err .full, .emp (some [1, 1]) [true, true]] ∧
+    (run (init .new [1, 2] none) [.place 0 [0, 0], .place 1 [0, 0], .empties]).2 =
+    [.ok, .ok, .emp (some [0, 1]) [false, true]] := by decide
+/-- the converse at work: the history that writes `False` into `empty_mask[0, 0]` is statically safe, the written cell is
+    the only one in `aliasWrites`, and the view is indeed wrong there and right elsewhere -/
+example : (∀ op ∈ [Op.grabMask 0, .hset 0 [0, 0] 0, .place 1 [1, 1]], op.safe .single = true) ∧
+    aliasWrites (init .single [2, 2] none) [.grabMask 0, .hset 0 [0, 0] 0, .place 1 [1, 1]] [0, 0] ∧
+    ¬ aliasWrites (init .single [2, 2] none) [.grabMask 0, .hset 0 [0, 0] 0, .place 1 [1, 1]] [1, 1] ∧
+    empties (run (init .single [2, 2] none) [.grabMask 0, .hset 0 [0, 0] 0, .place 1 [1, 1]]).1 =
+      .emp (some [0, 1, 1, 0]) [true, true, true, false] := by
+  refine ⟨by decide, ?_, ?_, by decide⟩
+  · simp [aliasWrites, step, grabMask, init]
+  · simp [aliasWrites, step, grabMask, init]
+/-- aliasing at work on a legacy grid: `b.data = a.data`; a write through `a` shows in `b` and in `grid.properties["b"]`;
+    after `a` is re-pointed by `modify_cells` the two part again (`b` keeps the old array) -/
+example : (rebind (run (init .multi [1, 2] none) [.create "a" .int 1, .create "b" .int 5, .grab 0 0]).1 1 0).2 = .ok ∧
+    (run (rebind (run (init .multi [1, 2] none) [.create "a" .int 1, .create "b" .int 5, .grab 0 0]).1 1 0).1
+      [.layerSet 0 [0, 1] 9, .cellGet "b" [0, 1], .modifyCells 0 false (some (· + 1)) none, .layerSet 0 [0, 0] 3,
+       .dump 1, .dump 0]).2 = [.ok, .val 9, .ok, .ok, .arr [1, 9], .arr [3, 10]] := by decide
 /-- legacy MultiGrid with two agents in one cell: the mask turns true only when the last one leaves -/
-example : ((run (init .multi [2, 2] 0) [.place 0 [0, 1], .place 1 [0, 1], .remove 0, .empties, .remove 1, .empties]).2.drop 3)
+example : ((run (init .multi [2, 2] none) [.place 0 [0, 1], .place 1 [0, 1], .remove 0, .empties, .remove 1, .empties]).2.drop 3)
     = [.emp (some [1, 0, 1, 1]) [true, false, true, true], .ok, .emp (some [1, 1, 1, 1]) [true, true, true, true]] := by
   decide
 
 /-- the clash rule at work on a reachable state: `is_empty` is refused, `a` is attached and read through the cell -/
-example : (run (init .new [2, 2] 0) [.newLayer "is_empty" [2, 2] .int 0, .attach 1, .create "a" .int 3, .cellGet "a" [1, 1],
+example : (run (init .new [2, 2] none) [.newLayer "is_empty" [2, 2] .int 0, .attach 1, .create "a" .int 3, .cellGet "a" [1, 1],
     .cellGet "is_empty" [1, 1]]).2 = [.id 1, .err (.value .clash), .id 2, .val 3, .err .attr] := by decide
 example : "is_empty" ∈ reservedNames ∧ "a" ∉ reservedNames := by decide
 
@@ -1253,45 +1499,45 @@ example : "is_empty" ∈ reservedNames ∧ "a" ∉ reservedNames := by decide
     truncated toward zero (2.75 ↦ 2, -2.75 ↦ -2) and read back so through the layer; `set_cells` refuses the
     float; `modify_cells(np.add, 0.5, cond)` re-points the layer to a float array holding the same numbers
     (3 ↦ 3.5 where the condition held, 2 ↦ 2.0, -2 ↦ -2.0 elsewhere); now the same cell write is exact -/
-example : (run (init .new [2, 2] 0)
+example : (run (init .new [2, 2] none)
     [.create "a" .int 3, .cellSet "a" [0, 0] (.py ⟨.float, 11⟩), .layerGet 1 [0, 0],
      .cellSet "a" [0, 1] (.py ⟨.float, -11⟩), .cellGet "a" [0, 1],
      .setCells 1 (.py ⟨.float, 8⟩) none, .dtype 1,
-     .modifyU 1 .add ⟨.float, 2⟩ (some fun x => x == 3), .dtype 1, .dump 1,
+     .modifyU 1 false .add ⟨.float, 2⟩ (some fun x => x == 3), .dtype 1, .dump 1,
      .cellSet "a" [0, 0] (.py ⟨.float, 11⟩), .layerGet 1 [0, 0]]).2 =
     [.id 1, .ok, .val 2, .ok, .val (-2), .err .type, .dt .int, .ok, .dt .float, .arr [8, -8, 14, 14],
      .ok, .val 11] := by decide
 /-- a bool layer: any non-zero number written through a cell is `True`; `set_cells(1)` is refused, `set_cells(True)`
     is not; numpy has no `bool - bool`; `bool + int` makes it an int layer -/
-example : (run (init .single [1, 2] 0)
+example : (run (init .single [1, 2] none)
     [.create "b" .bool 0, .cellSet "b" [0, 1] (.py ⟨.float, -2⟩), .dump 0, .setCells 0 (.py ⟨.int, 1⟩) none,
-     .setCells 0 (.py ⟨.bool, 1⟩) (some fun x => x == 0), .modifyU 0 .sub ⟨.bool, 1⟩ none,
-     .modifyU 0 .add ⟨.int, 2⟩ none, .dtype 0, .dump 0]).2 =
+     .setCells 0 (.py ⟨.bool, 1⟩) (some fun x => x == 0), .modifyU 0 false .sub ⟨.bool, 1⟩ none,
+     .modifyU 0 false .add ⟨.int, 2⟩ none, .dtype 0, .dump 0]).2 =
     [.id 0, .ok, .arr [0, 1], .err .type, .ok, .err .type, .ok, .dt .int, .arr [3, 3]] := by decide
 example : (⟨.float, -11⟩ : Val).ok ∧ (⟨.bool, 1⟩ : Val).ok ∧ sameKind .bool .int = true ∧ sameKind .float .int = false := by
   simp [Val.ok, sameKind, DType.rank]
 /-- a history that never re-types layer 1 although it writes floats into it, re-points another layer to a
     wider dtype and re-points layer 1 itself without changing its type -/
-example : noRetype 1 [.cellSet "a" [0, 0] (.py ⟨.float, 11⟩), .modifyU 2 .add ⟨.float, 2⟩ none,
-    .modifyCells 1 (some (· + 1)) none, .setCells 1 (.py ⟨.bool, 1⟩) none] := by
+example : noRetype 1 [.cellSet "a" [0, 0] (.py ⟨.float, 11⟩), .modifyU 2 false .add ⟨.float, 2⟩ none,
+    .modifyCells 1 true (some (· + 1)) none, .setCells 1 (.py ⟨.bool, 1⟩) none] := by
   intro op hop
   simp only [List.mem_cons, List.mem_nil_iff, or_false] at hop
   rcases hop with rfl | rfl | rfl | rfl <;> simp [Op.mayRetype]
 
 /-- `from_data` copies: the layer made from a reference to layer 1's array keeps 3 when the source cell is
     overwritten with 9, and has the source's dtype -/
-example : (run (init .new [1, 2] 0)
+example : (run (init .new [1, 2] none)
     [.create "a" .float 3, .grab 0 1, .fromData "b" 0, .hset 0 [0, 1] 9, .dump 2, .dump 1, .dtype 2, .attach 2,
      .cellGet "b" [0, 1]]).2 = [.id 1, .ok, .id 2, .ok, .arr [3, 3], .arr [3, 9], .dt .float, .ok, .val 3] := by decide
 /-- legacy `modify_cell(pos, np.add, 0.5)` on an int layer keeps the integer part; `modify_cells` promotes -/
-example : (run (init .multi [1, 2] 0)
+example : (run (init .multi [1, 2] none)
     [.create "a" .int 3, .modifyCellU 0 [0, 0] .add ⟨.float, 2⟩, .dump 0, .dtype 0,
-     .modifyU 0 .add ⟨.float, 2⟩ none, .dump 0, .dtype 0]).2 =
+     .modifyU 0 false .add ⟨.float, 2⟩ none, .dump 0, .dtype 0]).2 =
     [.id 0, .ok, .arr [3, 3], .dt .int, .ok, .arr [14, 14], .dt .float] := by decide
 
 /-- a von Neumann torus 3×3: the radius-1 neighbourhood of the corner wraps round; selecting the highest `a`
     with that mask looks only at the neighbourhood (the 9 at the far cell [1, 1] is not seen) -/
-example : (run (init .new [3, 3] 0)
+example : (run (init .new [3, 3] none)
     [.create "a" .int 0, .layerSet 1 [1, 1] 9, .layerSet 1 [0, 1] 5, .layerSet 1 [2, 0] 5,
      .nbhdMask 0 (some false) true [0, 0] false 1,
      .select [.saved 0] false [] [("a", some true)] none]).2.drop 4 =
@@ -1300,36 +1546,52 @@ example : (run (init .new [3, 3] 0)
 
 /-- a layer on two grids: written through the second grid's cell (2.75 into an int layer: 2), read through the
     first grid's cell; the second grid refuses `empty` and names of the cell class like the first -/
-example : (run (init .new [2, 2] 0)
+example : (run (init .new [2, 2] none)
     [.create "a" .int 0, .cellSet2 1 [1, 0] (.py ⟨.float, 11⟩), .cellGet "a" [1, 0], .cellGet2 1 [1, 0], .cellGet2 0 [0, 0],
      .newLayer "agents" [2, 2] .int 0, .cellSet2 2 [0, 0] 1]).2 =
     [.id 1, .ok, .val 2, .val 2, .err (.value .exists), .id 2, .err (.value .clash)] := by decide
 
 /-- conditional `set_cells` with an array value is positional: only the cell whose *old* value is 0 takes the
     source's entry *at that cell* (7), not the first entry of the source (5) -/
-example : (run (init .new [1, 3] 0)
+example : (run (init .new [1, 3] none)
     [.create "a" .int 1, .create "b" .float 0, .layerSet 1 [0, 0] 5, .layerSet 1 [0, 2] 7, .layerSet 2 [0, 1] 4, .grab 0 1,
      .setFrom 2 0 (some fun x => x == 0), .dump 2, .grab 1 2, .setFrom 1 1 none]).2.drop 6 =
     [.ok, .arr [20, 4, 28], .ok, .err .type] := by decide
 
 /-- 2.75 as the default of an int layer is 2 through both views; -0.5 as the default of a bool layer is True;
     True as the default of a float layer is 1.0 -/
-example : (run (init .new [1, 2] 0)
+example : (run (init .new [1, 2] none)
     [.create "a" .int (.py ⟨.float, 11⟩), .cellGet "a" [0, 1], .layerGet 1 [0, 1], .dtype 1,
      .create "b" .bool (.py ⟨.float, -2⟩), .cellGet "b" [0, 0], .create "c" .float (.py ⟨.bool, 1⟩), .dump 3]).2 =
     [.id 1, .val 2, .val 2, .dt .int, .id 2, .val 1, .id 3, .arr [4, 4]] := by decide
 
 /-- the layer's own selection and aggregates on a reachable state: list and mask of the cells above 2, sum, max, min;
     a layer without cells has a sum (0) but no maximum -/
-example : (run (init .new [1, 3] 0)
+example : (run (init .new [1, 3] none)
     [.create "a" .int 2, .layerSet 1 [0, 1] 5, .layerSelect 1 (fun x => decide (x > 2)), .aggregate 1 .sum,
      .aggregate 1 .max, .aggregate 1 .min, .newLayer "z" [0, 2] .int 0, .aggregate 2 .sum, .aggregate 2 .max]).2.drop 2 =
     [.sel [[0, 1]] [false, true, false], .val 9, .val 5, .val 2, .id 2, .val 0, .err (.value .empty)] := by decide
 
+/-- a free-standing layer without entries (new implementation): `np.vectorize` refuses a Python function and a condition
+    (`ValueError`, nothing changes), a ufunc with its operand and an unconditional `set_cells` go through — the ufunc
+    still re-types the layer — and no grid can take the layer (a second grid of its shape cannot even be built) -/
+example : (run (init .new [1, 1] none)
+    [.newLayer "z" [0, 2] .int 0, .modifyCells 1 true (some (· + 1)) none,
+     .setCells 1 (.raw 1) (some fun x => decide (x > 0)), .modifyCells 1 false (some (· + 1)) none, .setCells 1 (.raw 1) none,
+     .modifyCells 1 false none (some fun x => decide (x > 0)), .modifyCells 1 false none none,
+     .modifyU 1 true .add ⟨.float, 2⟩ none, .modifyU 1 false .add ⟨.float, 2⟩ none, .dtype 1,
+     .grab 0 1, .setFrom 1 0 (some fun x => x == 0), .setFrom 1 0 none,
+     .cellGet2 1 [0, 0], .attach 1, .layerSelect 1 (fun x => x == 0), .dump 1]).2 =
+    [.id 1, .err (.value .size0), .err (.value .size0), .ok, .ok, .err (.value .size0), .err (.value .ufunc),
+     .err (.value .size0), .ok, .dt .float, .ok, .err (.value .size0), .ok,
+     .err (.value .dims), .err (.value .dims), .sel [] [], .arr []] := by decide
+/-- the guard theorems are not vacuous either way: the layer above has a zero dimension, an attached one has not -/
+example : (0 : Nat) ∈ [0, 2] ∧ (0 : Nat) ∉ (init .new [2, 3] (some 1)).dims := by decide
+
 /-- the code's own caveat, on a reachable state: an attribute given to the grid *before* the layer exists is not
     protected — `grid.a` then reads the user's object, while cell attribute and layer still are one value;
     after the layer exists the assignment is refused -/
-example : (run (init .new [1, 2] 0)
+example : (run (init .new [1, 2] none)
     [.gridSet "a", .create "a" .int 3, .dumpName "a", .cellGet "a" [0, 1], .create "b" .int 4, .gridSet "b",
      .dumpName "b", .detach "b", .gridSet "b"]).2 =
     [.ok, .id 1, .err .shadowed, .val 3, .id 2, .err .attr, .arr [4, 4], .ok, .ok] := by decide
